@@ -17,7 +17,12 @@ Further families: "prefix-sibling" (in one module a failing augment and one whos
 string: exactly the failing statement must be reported - compared by statement position, not wording), "empty-copies"
 (childless nodes of a grouping used twice, in the target and inside augment bodies: one copy augmented, or both with
 the same child name, which must be clean), "revisions" (two revisions of one module / submodule loaded side by side,
-implementation alone: every augment statement of every loaded revision is visible below its target or reported).
+implementation alone: every augment statement of every loaded revision is visible below its target or reported),
+"target-revisions" (two revisions of the AUGMENTED module, importers pinning the older, the newer or no revision: every
+augment is visible exactly in the revision its import denotes, or reported when that revision lacks the target),
+"submodule-prefixes" (augments written in a submodule whose own imports / belongs-to prefix differ from its module's:
+only the submodule imports the target, module and submodule bind one prefix to different modules, belongs-to prefix
+unlike the module's own).
 Every clean implementation result must also have an empty `treeviol`, no entry with augments left (`naugments`) and
 (iv) every node each augment defines below its target exactly once, attributed to the augmenting module's namespace
 (an oracle on the implementation's dump alone); schemas built with an error variant (missing target, leaf target,
@@ -475,14 +480,15 @@ def reported_positions(j):
     return out
 
 
-def rev_text(kind, name, prefix, ns, revs, augments, belongs=None, includes=()):
+def rev_text(kind, name, prefix, ns, revs, augments, belongs=None, includes=(), imports=(("t", "t", None),)):
     """module text with revision statements; returns (text, [(line, path, leaf name, has target)])"""
     L = []
     if belongs is None:
         L += ["module %s {" % name, '  namespace "%s";' % ns, "  prefix %s;" % prefix]
     else:
         L += ["submodule %s {" % name, "  belongs-to %s { prefix %s; }" % (belongs, prefix)]
-    L.append("  import t { prefix t; }")
+    for imod, ipfx, ird in imports:
+        L.append("  import %s { prefix %s; %s}" % (imod, ipfx, "revision-date %s; " % ird if ird else ""))
     for inc, rd in includes:
         L.append("  include %s%s" % (inc, " { revision-date %s; }" % rd if rd else ";"))
     for r in revs:
@@ -526,6 +532,69 @@ def revision_cases(rnd, n):
                 marks += [(fname, ln, path, lf, "urn:host", good) for ln, path, lf, good in ms_]
         out.append(("submodule-revisions" if sub else "module-revisions", files, marks))
     return out
+
+
+def target_revision_cases(rnd, n):
+    """two revisions of the AUGMENTED module side by side, importers that pin the older one, the newer one, or none (= the
+    latest): (label, [(file, text)], [(file, line, revision denoted, path, leaf, ns, has target there)])"""
+    revs = ["2019-01-01", "2020-01-01"]
+    out = []
+    for k in range(n):
+        files = []
+        for r in revs:
+            y = r[:4]
+            files.append(("a@%s.yang" % r,
+                          'module a {\n  namespace "urn:a";\n  prefix a;\n  revision %s;\n  container c {\n    leaf own { type string; }\n  }\n'
+                          '  container only%s {\n    leaf o%s { type string; }\n  }\n  rpc r%s;\n}\n' % (r, y, y, y)))
+        marks = []
+        importers = [("b%d" % k, revs[0]), ("c%d" % k, None), ("d%d" % k, revs[1])]
+        rnd.shuffle(importers)
+        with_bad = rnd.random() < 0.35
+        for name, pin in importers[:rnd.randint(2, 3)]:
+            denotes = pin or revs[1]
+            y, other = denotes[:4], (revs[0] if denotes == revs[1] else revs[1])[:4]
+            cands = [(["c"], True), (["only" + y], True), (["r" + y, "input"], True)]
+            if with_bad:
+                cands += [(["only" + other], False), (["r" + other, "input"], False)]
+            rnd.shuffle(cands)
+            augs = [("/" + "/".join("p:" + x for x in st), "%s%s" % (name, "xyzw"[i]), good) for i, (st, good) in enumerate(cands[:rnd.randint(1, 3)])]
+            text, ms_ = rev_text("module", name, name, "urn:" + name, [], augs, imports=[("a", "p", pin)])
+            files.append((name + ".yang", text))
+            marks += [(name + ".yang", ln, denotes, path, lf, "urn:" + name, good) for ln, path, lf, good in ms_]
+        out.append(("target-revisions", files, marks))
+    return out
+
+
+def target_revision_defects(marks, line):
+    """every augment is visible, once, in the tree of the revision its import denotes and in no other revision of that
+    module, or - when that revision has no such target - reported at its statement; nothing else is reported"""
+    if not line.startswith("{"):
+        return ["implementation neither resolved nor reported: " + line[:120]]
+    j = json.loads(line)
+    if any(l.startswith("err") for l in j["loads"]):
+        return ["a text was rejected at load: %s" % j["loads"]]
+    run = j["runs"][-1]
+    bad = []
+    want = {(f, ln) for f, ln, rev, path, lf, ns, good in marks if not good}
+    got = reported_positions(j)
+    if want != got:
+        bad.append("reported %s %s, the augments without target in the imported revision are at %s" % (sorted(got), run["errors"][:2], sorted(want)))
+    if not run["errors"]:
+        trees = {m.get("rev"): m["tree"] for m in run["modules"] if m["name"] == "a" and not m["sub"]}
+        for f, ln, rev, path, lf, ns, good in marks:
+            for r, tree in trees.items():
+                node = tree
+                for part in path.strip("/").split("/"):
+                    node = child_of(node, part.split(":")[-1]) if node is not None else None
+                cs = [c for c in ((node or {}).get("children") or []) if c["name"] == lf]
+                if r == rev and len(cs) != 1:
+                    bad.append("augment at %s:%d: %d node(s) %s below %s of a@%s, the revision its import denotes" % (f, ln, len(cs), lf, path, r))
+                elif r == rev and cs[0]["ns"] != ns:
+                    bad.append("augment at %s:%d: %s has namespace %s, not %s" % (f, ln, lf, cs[0]["ns"], ns))
+                elif r != rev and cs:
+                    bad.append("augment at %s:%d: %s also appears below %s of a@%s, which its import does not denote" % (f, ln, lf, path, r))
+        bad += go_clean_defects(j)
+    return bad
 
 
 def revision_line(files, order):
@@ -688,6 +757,40 @@ def gen(tier, seed):
         for m in mods:
             rnd.shuffle(m["augments"])
         out.append((mods, meta, "empty-copies"))
+    # augments written in a submodule whose prefix table differs from its module's: the prefixes of the path are the submodule's
+    for k in range(36 if tier == "quick" else 360):
+        g = AGen(rnd)
+        t, ts = target_module()
+        other = mk("other", "other")
+        other["body"] = [cont("c", [leaf("ol"), cont("cc", [leaf("ol2")])]), cont("options", [leaf("oo")]), ("notification", "n", [leaf("onl")])]
+        shape = ["own-import", "clashing-prefix", "belongs-to-prefix"][k % 3]
+        host = mk("hostm", "hm", includes=["hs"])
+        host["body"] = [cont("mc", [leaf("ml")])]
+        if shape == "own-import":          # only the submodule imports the target (or the module does under another prefix)
+            sp = rnd.choice(["q", "t", "hm2"])
+            sub = mk("hs", "hm", belongs="hostm", imports=[(sp, "t")])
+            if rnd.random() < 0.5:
+                host["imports"] = [("zz", "t")]
+            tsteps, tp = rnd.choice([["c"], ["c", "cc"], ["n"], ["options"], ["r", "input"], ["sc"]]), sp
+        elif shape == "clashing-prefix":   # module and submodule bind the same prefix to different modules
+            sp = rnd.choice(["q", "x"])
+            sub = mk("hs", "hm", belongs="hostm", imports=[(sp, "t")])
+            host["imports"] = [(sp, "other")]
+            tsteps, tp = rnd.choice([["c"], ["c", "cc"], ["n"], ["options"]]), sp
+        else:                              # the belongs-to prefix is not the module's own prefix
+            sub = mk("hs", "self", belongs="hostm", imports=[("t", "t")] if rnd.random() < 0.5 else [])
+            tsteps, tp = ["mc"], "self"
+        nm = g.fresh("x")
+        sub["augments"].append((path_of(tp, tsteps), [leaf(g.fresh("al")), cont(nm, [leaf(g.fresh("al"))])]))
+        mods = [t, ts, other, host, sub]
+        if rnd.random() < 0.5:             # someone continues the chain below what the submodule added
+            m1 = mk("maug1", "p1", imports=[("t", "t"), ("h", "hostm")])
+            m1["augments"].append((path_of("h" if shape == "belongs-to-prefix" else "t", tsteps + [nm]), [leaf(g.fresh("al"))]))
+            mods.append(m1)
+        if rnd.random() < 0.3:
+            sub["augments"].append((path_of("hm" if shape != "belongs-to-prefix" else "self", ["mc"]), [leaf(g.fresh("al"))]))
+        rnd.shuffle(sub["augments"])
+        out.append((mods, dict(kinds=["submodule-prefix-table:" + shape], chains=[1], errors=[], ic=False), "submodule-prefixes"))
     # paths through the implicit case (applied only by the pass after FixChoice)
     for _ in range(120 if tier == "quick" else 1200):
         g = AGen(rnd)
@@ -939,7 +1042,7 @@ def run(res, tier, seed, proof):
             report(None, "tie", "tie (module set with the importing module atop): impl=%s model=%s" % (rst, m.split(" ")[0]),
                    dict(base, what_kind="tie", variant="atop", impl=(rtxt or rst), model=m[:2000]))
     # two revisions of one module / submodule side by side (implementation alone: the model has one module per name)
-    rcases = revision_cases(rnd, 30 if tier == "quick" else 300)
+    rcases = revision_cases(rnd, 30 if tier == "quick" else 300) + target_revision_cases(rnd, 30 if tier == "quick" else 300)
     rlines, ridx = [], []
     for ci, (label, files, marks) in enumerate(rcases):
         n = len(files)
@@ -958,11 +1061,11 @@ def run(res, tier, seed, proof):
     for (ci, o), line in zip(ridx, rout):
         label, files, marks = rcases[ci]
         hist["revision_by_kind"][label] = hist["revision_by_kind"].get(label, 0) + 1
-        bad = revision_defects(marks, line)
+        bad = target_revision_defects(marks, line) if label == "target-revisions" else revision_defects(marks, line)
         if bad and ci not in seen_rev:
             seen_rev.add(ci)
             hist["revision_defects"] += 1
-            report(None, "revisions", "%s: an augment of a loaded revision is neither applied nor reported (or a wrong one is): %s"
+            report(None, "revisions:" + label, "%s: an augment of a loaded revision is neither applied nor reported (or a wrong one is): %s"
                    % (label, "; ".join(bad[:2])),
                    dict(kind="c07", what_kind="revisions", files=files, marks=marks, order=o, schema=[], meta={}, origin=label))
     nontrivial = sum(1 for s_, m_, o_ in items if sum(len(x["augments"]) for x in s_) >= 2)
@@ -996,7 +1099,7 @@ def replay(rep, res):
             print("----", f)
             print(t)
         line = lib.run_go([revision_line(files, rep["order"])])[0]
-        bad = revision_defects(marks, line)
+        bad = target_revision_defects(marks, line) if rep.get("origin") == "target-revisions" else revision_defects(marks, line)
         print("load order", [files[i][0] for i in rep["order"]], "->", bad or "every augment applied or reported")
         return 1 if bad else 0
     if rep.get("what_kind") == "wrong-reports":
